@@ -26,3 +26,26 @@ tensor_size_t inst_find_sclass(const hashes_t& h, const int32_t& v) { return fin
 // enumerator values used as `case` labels in the C rendering of table.cpp's process() (specs/C10/table.h)
 static_assert(static_cast<int>(nano::feature_type::sclass) == 10, "NVE_feature_type_sclass");
 static_assert(static_cast<int>(nano::feature_type::mclass) == 11, "NVE_feature_type_mclass");
+// enumerator values of the hinge direction used by specs/C10/linear.h
+#include <nano/wlearner/dtree.h>
+#include <nano/wlearner/hinge.h>
+#include <nano/wlearner/stump.h>
+#include <type_traits>
+static_assert(static_cast<int>(nano::hinge_type::left) == 0, "NVE_hinge_type_left");
+static_assert(static_cast<int>(nano::hinge_type::right) == 1, "NVE_hinge_type_right");
+// stump, hinge and dtree inherit wlearner_t::try_merge (a class that declared its own override would make the member
+// pointer a pointer to member of that class): the contract proved for the base implementation (specs/C10/trymerge.h) is
+// the contract of these three learners
+using nv_base_try_merge_t = bool (nano::wlearner_t::*)(const nano::rwlearner_t&);
+static_assert(std::is_same_v<decltype(&nano::stump_wlearner_t::try_merge), nv_base_try_merge_t>, "stump_wlearner_t overrides try_merge");
+static_assert(std::is_same_v<decltype(&nano::hinge_wlearner_t::try_merge), nv_base_try_merge_t>, "hinge_wlearner_t overrides try_merge");
+static_assert(std::is_same_v<decltype(&nano::dtree_wlearner_t::try_merge), nv_base_try_merge_t>, "dtree_wlearner_t overrides try_merge");
+// default member initialisers of dtree_node_t: the C rendering of `dtree_node_t node;` in dtree.cpp's do_fit is the all-zero
+// struct with m_feature / m_threshold / m_table assigned before use; m_next == 0 ("leaf until linked") is relied on
+static_assert(nano::dtree_node_t{}.m_next == 0U && nano::dtree_node_t{}.m_table == -1 && nano::dtree_node_t{}.m_feature == -1,
+              "dtree_node_t default member initialisers");
+// enumerator values used as `case` labels in the C rendering of wlearner::make_score (specs/C10/criterion.h)
+#include <nano/wlearner/criterion.h>
+static_assert(static_cast<int>(nano::wlearner_criterion::rss) == 0 && static_cast<int>(nano::wlearner_criterion::aic) == 1 &&
+                  static_cast<int>(nano::wlearner_criterion::aicc) == 2 && static_cast<int>(nano::wlearner_criterion::bic) == 3,
+              "NVE_wlearner_criterion_*");
